@@ -55,6 +55,19 @@ Expect(rel, sameStride) ==
       [] rel = "identical" -> "either"   \* mat/doc.go: identity means the same Go value
       [] rel = "disjoint"  -> IF sameStride THEN "equal" ELSE "either"
 
+\* Methods gonum computes through storage of their own before anything is written to the
+\* receiver (mat/qr.go: "Do not need to worry about overlap between m and b because x has its
+\* own independent storage"; Solve factorizes a copy of a; Product works in pooled
+\* workspaces and copy the result at the end).  gonum deliberately does not panic for them when
+\* receiver and operand overlap partially; the requirement is then the property's last sentence:
+\* the call may panic (region message, nothing written) or return, and a returned result must be
+\* exactly the unaliased one.  For every other method partial overlap must panic.
+Isolated == <<"Solve(A,f)", "Solve(fLS,A)", "Product(A,f,f)", "Product(f,f,A)", "Product(f,A,f)",
+              "SolveVec(fLS,A)">>
+ExpectIso(rel, sameStride) == IF rel = "partial" THEN "either" ELSE Expect(rel, sameStride)
+\* the class table is printed once so that the harness can check its own flags against it
+ASSUME PrintT(ToJson([fam |-> "header", isolated |-> Isolated]))
+
 (************* implementation-shaped layer: mat/shadow.go, literally *********)
 RectanglesOverlap(off, aCols, bCols, stride) ==
     IF stride = 1 THEN TRUE
@@ -88,17 +101,19 @@ AlgVec(v, a) ==
 MatCase(w1, w2) ==
     LET rel == RelSets(Cells(w1), Cells(w2), w1 = w2)
         same == w1.st = w2.st
-    IN [fam |-> Family, w1 |-> w1, w2 |-> w2, rel |-> rel, expect |-> Expect(rel, same), alg |-> AlgMat(w1, w2)]
+    IN [fam |-> Family, w1 |-> w1, w2 |-> w2, rel |-> rel, expect |-> Expect(rel, same), expectIso |-> ExpectIso(rel, same),
+        alg |-> AlgMat(w1, w2)]
 VecCase(v1, v2) ==
     LET rel == RelSets(VCells(v1), VCells(v2), v1 = v2)
         same == v1.inc = v2.inc
-    IN [fam |-> Family, w1 |-> v1, w2 |-> v2, rel |-> rel, expect |-> Expect(rel, same), alg |-> AlgVec(v1, v2)]
+    IN [fam |-> Family, w1 |-> v1, w2 |-> v2, rel |-> rel, expect |-> Expect(rel, same), expectIso |-> ExpectIso(rel, same),
+        alg |-> AlgVec(v1, v2)]
 
 InShard(w) == (w.off % NShards) = Shard
 
 \* the receiver itself (the same Go value), or its implicit transpose, as an operand:
 \* mat/doc.go allows it and the result must be the unaliased one
-SelfCase(w, rel) == [fam |-> Family, w1 |-> w, w2 |-> w, rel |-> rel, expect |-> "equal", alg |-> "self"]
+SelfCase(w, rel) == [fam |-> Family, w1 |-> w, w2 |-> w, rel |-> rel, expect |-> "equal", expectIso |-> "equal", alg |-> "self"]
 MatSelf == {SelfCase(w, "self") : w \in {x \in MatWin(R1, C1) : InShard(x)}}
            \cup {SelfCase(w, "selfT") : w \in {x \in MatWin(R1, C1) : InShard(x) /\ x.r = x.c}}
 VecSelf == {SelfCase(v, "self") : v \in {x \in VecWinOK(R1, C1, BackLen) : InShard(x)}}
@@ -128,7 +143,8 @@ AlgSafe == c.rel # "disjoint" => c.alg # "none"
 \* and it reports "identical" only for the identical window
 AlgIdent == (c.alg = "identical") => (c.rel = "identical")
 \* the expectation table is total and never demands a return on shared cells
-ExpectSound == /\ c.expect \in {"equal", "panic", "either"}
+ExpectSound == /\ c.expect \in {"equal", "panic", "either"} /\ c.expectIso \in {"equal", "either"} \cup {c.expect}
+               /\ (c.expectIso = "equal") => (c.expect = "equal")
                /\ (c.expect = "equal") => (c.rel \in {"disjoint", "self", "selfT"})
 
 Emit == PrintT(ToJson(c))
